@@ -228,6 +228,10 @@ class Sel(Family):
             if onecat:
                 return min(unQ(roi[3]), unQ(roi[4])) / 900 + EPS_FLOAT
             return EPS_FLOAT
+        if k == "poly":
+            # dyadic vertices and points: matplotlib's products are exact, so the literal crossing rule
+            # (validated by the mpl family, boundary included) predicts the mask everywhere
+            return EPS_FLOAT if onecat else Fr(0)
         return EPS_FLOAT
 
     def cases(self, tier, rng):
